@@ -146,6 +146,20 @@ func (m *C13Mon) After(h *Hand, pre *pokerface.GameState, op Op, err error, post
 		}
 		if post.Status.CurrentWager != 0 {
 			h.Fail("C13/ante-counts-as-wager", "after=ante", fmt.Sprintf("wager to match %d right after antes", post.Status.CurrentWager))
+			return
+		}
+		// "goes straight to the pot": the pots published after the ante step hold exactly the antes
+		var paid, pots int64
+		for _, p := range post.Players {
+			paid += p.Pot
+		}
+		for _, p := range post.Status.Pots {
+			if p != nil {
+				pots += p.Total
+			}
+		}
+		if pots != paid {
+			h.Fail("C13/ante-not-in-the-pot", "after=ante", fmt.Sprintf("antes paid %d, published pots hold %d", paid, pots))
 		}
 	}
 }
